@@ -19,10 +19,10 @@ func init() {
 	register(&CheckDef{
 		ID:    "C10",
 		Level: "exploration",
-		Rule: "abstract specifications (all declaration kinds, numbered/literal/tagged tokens, %prec, empty alternatives, actions with nested braces, with and without epilogue; plus every rule set of G(2,2,2,<=2)) x {';' present/absent} x {alternatives joined by '|' / repeated left side} x renderings: every gap between two atoms takes each separator of {blank, newline, tab, /* c */, // c<newline>, mixed whitespace, and empty where yacc syntax allows it}, deviation-bounded: canonical layout, every single-gap deviation, every uniform policy, and (thorough) every pair of gaps on the small specifications; " +
+		Rule: "abstract specifications (all declaration kinds, numbered/literal/tagged tokens, %prec, empty alternatives, actions with nested braces and with braces inside strings, runes and comments, value tags on precedence lines, program text on the line of the second %%, mid-rule actions, with and without epilogue; plus every rule set of G(2,2,2,<=2)) x {';' present/absent} x {alternatives joined by '|' / repeated left side} x {one %token line per token / tokens of one tag grouped on a line, with numbers and string aliases} x renderings: every gap between two atoms takes each separator of {blank, newline, CR LF, tab, /* c */, /** c **/, /*/ c */, /* a * b / c */, // c<newline>, mixed whitespace, and empty where yacc syntax allows it}, deviation-bounded: canonical layout, every single-gap deviation, every uniform policy, and (thorough) every pair of gaps on the small specifications; " +
 			"what yaccgo works on (rules in order with %prec, action bodies, start symbol, token numbers, tags, precedence levels and associativity, prologue, %union body, epilogue) must equal the abstract specification for every rendering, and the generated Go/TypeScript file must carry prologue, union, actions and epilogue; non-trivial = rendering that differs from the canonical one; distinct = distinct texts",
 		Assumptions: []string{
-			"domain: ASCII, separators from the list above (no carriage returns), at most one action per alternative placed last, balanced braces in actions, identifiers that are not directive keywords; prologue and %union body are compared modulo surrounding whitespace, the epilogue byte for byte",
+			"domain: separators from gram.Separators (blank, tab, LF, CR LF, the three comment forms incl. `/** c **/` and `/*/ c */`, nothing where the syntax allows it); braces in actions balanced outside strings, runes and comments; a specification with mid-rule actions may be refused with a diagnostic, but no action body may be dropped silently; prologue and %union body are compared modulo surrounding whitespace, the epilogue byte for byte",
 		},
 		Work: func(w *Worker) { c10Work(w) },
 		Replay: func(w *Worker, raw json.RawMessage) {
@@ -116,6 +116,16 @@ func c10Specs() []gram.Named {
 	nums.HasUnion = true
 	out = append(out, gram.Named{Name: "numbers-tags", Spec: nums})
 
+	// actions between the symbols of a right-hand side (mid-rule actions): no body may get lost
+	mid := gram.Parse("S", []string{"TA", "TB"}, "S: TA TB | TB TA")
+	mid.Union = " n int "
+	mid.HasUnion = true
+	mid.Types = []gram.TypeDecl{{Tag: "n", Names: []string{"S"}}}
+	mid.Rules[0].Mid = []gram.MidAct{{After: 1, Text: " midRuleBody(1) "}}
+	mid.Rules[0].Action = " $$ = finalBody(1) "
+	mid.Rules[1].Mid = []gram.MidAct{{After: 1, Text: " onlyBody(2) "}}
+	out = append(out, gram.Named{Name: "mid-rule-actions", Spec: mid})
+
 	// value tags given on precedence lines: to a token declared before (untagged), to a new name, to a literal
 	ptag := gram.Parse("E", nil, "E: E TP E | E TQ E | E '-' E | TN")
 	ptag.Union = " v int \n w string "
@@ -162,7 +172,7 @@ func c10Work(w *Worker) {
 		w.Count("specifications", int64(len(specs)))
 	}
 	for si, n := range specs {
-		small := si >= 11 // class grammars and families: fewer option combinations
+		small := si >= 12 // class grammars and families: fewer option combinations
 		for oi := 0; oi < 8; oi++ {
 			o := gram.LayoutOpts{NoSemicolon: oi&1 != 0, RepeatLHS: oi&2 != 0, GroupDecls: oi&4 != 0}
 			if small && strings.Contains(n.Name, "#") && oi != 0 && oi != 3 {
@@ -209,7 +219,7 @@ func c10Work(w *Worker) {
 					emit(&c10Case{Origin: n.Name, Spec: n.Spec, Opts: o, Seps: map[int]string{gi: sp}})
 				}
 			}
-			if w.Thorough() && si < 11 {
+			if w.Thorough() && si < 12 {
 				for gi, a1 := range atoms {
 					for gj := gi + 1; gj < len(atoms); gj++ {
 						a2 := atoms[gj]
@@ -264,7 +274,18 @@ func c10Eval(w *Worker, c *c10Case) {
 	if !g.Usable() {
 		return
 	}
+	hasMid := false
+	for _, r := range spec.Rules {
+		if len(r.Mid) > 0 {
+			hasMid = true
+		}
+	}
 	if !res.OK() {
+		if hasMid && !res.Fuel && !res.RuntimeErr && res.Diag() != "" {
+			// saying no to mid-rule actions is not misreading them
+			w.Count("mid_rule_actions_refused_with_diagnostic", 1)
+			return
+		}
 		bad("rejected", "a rendering of a well-formed specification is refused: "+res.Diag())
 		return
 	}
@@ -285,6 +306,19 @@ func c10Eval(w *Worker, c *c10Case) {
 		wantAct := ""
 		if r.HasAct || r.Action != "" {
 			wantAct = "{" + r.Action + "}"
+		}
+		if len(r.Mid) > 0 {
+			// yaccgo keeps one action text per rule: every body written in the rule must be in it
+			// (the key does not depend on the layout: one finding, however the file is laid out)
+			for _, m := range append(append([]gram.MidAct(nil), r.Mid...), gram.MidAct{Text: r.Action}) {
+				if strings.TrimSpace(m.Text) != "" && !strings.Contains(one.ActionCode, strings.TrimSpace(m.Text)) {
+					w.Violate(fmt.Sprintf("C10|action-body-lost|%s|rule %d", c.Origin, i+1),
+						fmt.Sprintf("action-body-lost: specification %q, rule %d (%s): the action body {%s} written in the rule is dropped without a diagnostic, yaccgo keeps only %q", c.Origin, i+1, r.String(), m.Text, one.ActionCode), c,
+						map[string]interface{}{"text": text})
+					return
+				}
+			}
+			continue
 		}
 		if one.ActionCode != wantAct {
 			bad("action-body", fmt.Sprintf("rule %d (%s): action is %q, the file says %q", i+1, r.String(), one.ActionCode, wantAct))
